@@ -9,8 +9,9 @@
   arithmetic).  A slot of the slice is either a Go `nil` interface (`.goNil`: never written, or cleared by
   SetTop/CopyRange/forceResize) or an LValue (`.val none` = LNil).  Every slice index / slice expression
   that can be out of range is an explicit `.goPanic`.  Registry indices are Go `int`s, hence `Int` where the
-  code can produce a negative one.  The pseudo-indices (`idx <= RegistryIndex`) of Get/Replace are outside
-  the model: explicit error branch, excluded by guard in the theorems.
+  code can produce a negative one.  The pseudo-indices (`idx <= RegistryIndex`) of Get/Replace do not
+  touch the registry: in `get`/`replace` they are an explicit error branch (excluded by guard in the list theorems);
+  their own branches are `getPseudo`/`replacePseudo` at the end of this file.
 -/
 import GLua.Basic
 import GLua.Generated.Consts
@@ -251,6 +252,32 @@ def pcallRecover (s : St) (nargs : Int) (atFailure : Reg) : Except Err St := do
   let r ← regSetTop atFailure base
   .ok { s with reg := r }
 
+/-- the way the deferred function of `PCall` is left once the callee has failed. -/
+inductive RecoverPath where
+  | noHandler        -- `errfunc == nil`: only the stack trace is filled in
+  | handlerReturned  -- `Push(errfunc); Push(obj); Call(1, 1)` came back; `err = Get(-1)`; then the common tail
+  | handlerFailed    -- the handler call itself failed (Lua error, Go value, overflow while pushing): inner deferred recover
+  deriving DecidableEq, Repr
+
+/-- `PCall`'s deferred function as a whole, by exit path.  `atExit` is the thread at the moment the path reaches its
+    `stack.SetSp(sp); currentFrame = stack.Last(); closeUpvalues(base); reg.SetTop(base)`: `atExit.reg` is whatever
+    callee and handler left, `atExit.base` the LocalBase of whatever frame was current then (a dead callee or handler
+    frame).  Each of the three paths has its own copy of those four statements in state.go; each restores the frame of
+    the function that made the protected call (`s.base`: `stack.Last()` after `SetSp(sp)`) and cuts the registry at
+    `base := Top()-nargs-1`, computed before the call. -/
+def pcallDeferred (s : St) (nargs : Int) (path : RecoverPath) (atExit : St) : Except Err St := do
+  let base := (s.reg.top : Int) - nargs - 1
+  match path with
+  | .noHandler => do
+    let r ← regSetTop atExit.reg base
+    .ok { reg := r, base := s.base }
+  | .handlerReturned => do
+    let r ← regSetTop atExit.reg base
+    .ok { reg := r, base := s.base }
+  | .handlerFailed => do
+    let r ← regSetTop atExit.reg base
+    .ok { reg := r, base := s.base }
+
 /-- `ObjLen` (state.go) as a function of the operand class and of what the `__len` handler returned.
     `lenRes`: result of the handler when there is one; `tblLen`: `LTable.Len()` for tables. -/
 inductive LenOperand where
@@ -268,5 +295,60 @@ def objLen : LenOperand → Option Int
   | .handler _ => some 0
   | .tbl n => some n
   | .other => some 0
+
+/-! ## pseudo-indices (`idx <= RegistryIndex`) of `Get` / `Replace`
+  The `else` branches of the two functions.  They do not address the value stack at all (the registry is not even
+  an argument here): registry table, environment of the running function, globals table, upvalues of the running
+  host function.  `isTable` is the outcome of the type assertion `value.(*LTable)`. -/
+
+/-- `ls.currentFrame.Fn`: its `Env` and the values held by its `Upvalues`. -/
+structure FnCells where
+  env : OVal
+  ups : List OVal
+deriving DecidableEq, Repr
+
+structure PSt where
+  registry  : OVal              -- ls.G.Registry
+  globals   : OVal              -- ls.G.Global
+  threadEnv : OVal              -- ls.Env
+  frame     : Option FnCells    -- ls.currentFrame (nil at top level)
+deriving DecidableEq, Repr
+
+def getPseudo (p : PSt) (idx : Int) : Except Err OVal :=
+  if idx = Generated.RegistryIndex then .ok p.registry
+  else if idx = Generated.EnvironIndex then
+    match p.frame with
+    | none => .ok p.threadEnv
+    | some f => .ok f.env
+  else if idx = Generated.GlobalsIndex then .ok p.globals
+  else
+    match p.frame with
+    | none => .error (.goPanic "Get: ls.currentFrame.Fn with currentFrame == nil")
+    | some f =>
+      let index := Generated.GlobalsIndex - idx - 1
+      if index < f.ups.length then
+        if index < 0 then .error (.goPanic "Get: fn.Upvalues[index]") else .ok (f.ups.getD index.toNat none)
+      else .ok none
+
+def replacePseudo (p : PSt) (idx : Int) (value : OVal) (isTable : Bool) : Except Err PSt :=
+  if idx = Generated.RegistryIndex then
+    if isTable then .ok { p with registry := value } else .error (.luaError "registry must be a table")
+  else if idx = Generated.EnvironIndex then
+    match p.frame with
+    | none => .error (.luaError "no calling environment")
+    | some f =>
+      if isTable then .ok { p with frame := some { f with env := value } }
+      else .error (.luaError "environment must be a table")
+  else if idx = Generated.GlobalsIndex then
+    if isTable then .ok { p with globals := value } else .error (.luaError "_G must be a table")
+  else
+    match p.frame with
+    | none => .error (.goPanic "Replace: ls.currentFrame.Fn with currentFrame == nil")
+    | some f =>
+      let index := Generated.GlobalsIndex - idx - 1
+      if index < f.ups.length then
+        if index < 0 then .error (.goPanic "Replace: fn.Upvalues[index]")
+        else .ok { p with frame := some { f with ups := f.ups.set index.toNat value } }
+      else .ok p
 
 end GLua.ApiStack
